@@ -9,7 +9,7 @@ from vf.ref import ber
 LEN_OPS = ["len-1", "len+1", "len+k", "len=0", "len=2^31", "len-127-octets", "len-indefinite", "len-nonminimal"]
 TAG_OPS = ["tag-class", "tag-number", "tag-pc", "tag-hightag-form"]
 CONTENT_OPS = ["content-truncate", "content-extend", "content-random", "content-empty"]
-NODE_OPS = ["node-delete", "node-duplicate", "node-swap", "node-wrap"]
+NODE_OPS = ["node-delete", "node-duplicate", "node-swap", "node-wrap", "cut-in-child-length"]
 ALL_OPS = LEN_OPS + TAG_OPS + CONTENT_OPS + NODE_OPS
 
 
@@ -125,6 +125,17 @@ def apply(data: bytes, root: ber.Node, nodes: list, k: int, op: str, r: random.R
         return _ser(root, repl)
     elif op == "node-wrap":
         new = b"\x30" + ber.length_octets(len(orig)) + orig
+    elif op == "cut-in-child-length":
+        # this node keeps a valid header but its content ends inside the (multi-octet) length octets of its last child
+        if not n.children:
+            return None
+        last = n.children[-1]
+        lc = data[last.hdr : last.end]
+        lid = data[last.start : last.start + _ident_len(data, last.start)]
+        lo = ber.length_octets(max(len(lc), 1), r.choice([2, 3, 4]))
+        keep = r.randrange(1, len(lo))
+        body = data[n.hdr : last.start] + lid + lo[:keep]
+        new = ident + ber.length_octets(len(body)) + body
     else:
         raise ValueError(op)
     if fixup or op in NODE_OPS:
